@@ -215,6 +215,19 @@ func (e *Explorer) Explore() Stats {
 	// determinism self-test: the default schedule twice
 	bodies, _ := e.Scenario()
 	a := Run(nil, bodies)
+	if a.Deadlock || a.Overrun {
+		// the threads of this execution are stuck for good and may hold real locks of objects that the next execution
+		// would share (a driver, a cache): nothing more can be run in this process. Report it now.
+		e.stats.Schedules++
+		e.stats.Points += a.Points
+		if a.Deadlock {
+			e.stats.Violation = fmt.Sprintf("deadlock: %v", a.Blocked)
+		} else {
+			e.stats.Violation = fmt.Sprintf("execution exceeded the horizon of %d steps (livelock)", MaxSteps)
+		}
+		e.stats.ViolationRun = a
+		return e.stats
+	}
 	if !a.Deadlock && !a.Overrun {
 		bodies, _ = e.Scenario()
 		b := Run(nil, bodies)
